@@ -140,8 +140,18 @@ func (a *Affiliation) computeTriggersForCastingSites(pass *analysishelper.Enhanc
 						if declObj := pass.TypesInfo.Uses[ident]; declObj != nil {
 							if fdecl, ok := declObj.(*types.Func); ok {
 								fsig := fdecl.Type().(*types.Signature)
-								for i := 0; i < fsig.Params().Len() && i < len(node.Args); i++ {
-									lhsType := fsig.Params().At(i).Type()          // receiver param of method declaration
+								numParams := fsig.Params().Len()
+								for i := 0; i < len(node.Args); i++ {
+									var lhsType types.Type // receiver param of method declaration
+									if fsig.Variadic() && i >= numParams-1 && !node.Ellipsis.IsValid() {
+										// e.g., func foo(is ...I), foo(&S{}, &T{}): every argument passed for the variadic
+										// parameter is converted to its element type `I` (not to its declared type `[]I`)
+										if variadicType, ok := fsig.Params().At(numParams - 1).Type().(*types.Slice); ok {
+											lhsType = variadicType.Elem()
+										}
+									} else if i < numParams {
+										lhsType = fsig.Params().At(i).Type()
+									}
 									rhsType := pass.TypesInfo.TypeOf(node.Args[i]) // caller param
 									appendTypeToTypeTriggers(lhsType, rhsType)
 								}
